@@ -474,6 +474,84 @@ func addTxIndexUpdatesAtomic(fd *ast.FuncDecl) bool {
 	return iUn > iHash && iUn > iList
 }
 
+// callsNamed: all call expressions in n whose selector (or function) name is one of names
+func callsNamed(n ast.Node, names ...string) []*ast.CallExpr {
+	var out []*ast.CallExpr
+	ast.Inspect(n, func(x ast.Node) bool {
+		c, ok := x.(*ast.CallExpr)
+		if !ok {
+			return true
+		}
+		name := ""
+		switch f := c.Fun.(type) {
+		case *ast.SelectorExpr:
+			name = f.Sel.Name
+		case *ast.Ident:
+			name = f.Name
+		}
+		for _, w := range names {
+			if name == w {
+				out = append(out, c)
+			}
+		}
+		return true
+	})
+	return out
+}
+
+// countersPaired: the counter updates of a map wrapper happen iff the (atomic, chunk-locked) map operation reported a change:
+// `x := m.<mapOp>(…)` (x the last defined variable) and every call to one of `counterOps` lies inside `if x { … }` or after a
+// top-level `if !x { return … }`; no lookup of the map (`lookups`) precedes the operation (no check-then-act).
+func countersPaired(fd *ast.FuncDecl, mapOp string, counterOps []string, lookups []string) bool {
+	if fd == nil {
+		return false
+	}
+	flag := ""
+	opIdx := -1
+	for i, st := range fd.Body.List {
+		as, ok := st.(*ast.AssignStmt)
+		if !ok || as.Tok != token.DEFINE || len(as.Rhs) != 1 || len(callsNamed(as.Rhs[0], mapOp)) != 1 {
+			continue
+		}
+		if id, ok := as.Lhs[len(as.Lhs)-1].(*ast.Ident); ok {
+			flag, opIdx = id.Name, i
+			break
+		}
+	}
+	if flag == "" {
+		return false
+	}
+	for _, st := range fd.Body.List[:opIdx] {
+		if len(callsNamed(st, lookups...)) > 0 {
+			return false
+		}
+	}
+	guardedFrom := -1 // index of a top-level `if !flag { return }`
+	for i := opIdx + 1; i < len(fd.Body.List); i++ {
+		st := fd.Body.List[i]
+		if is, ok := st.(*ast.IfStmt); ok {
+			if u, ok := is.Cond.(*ast.UnaryExpr); ok && u.Op == token.NOT {
+				if id, ok := u.X.(*ast.Ident); ok && id.Name == flag && len(is.Body.List) > 0 {
+					if _, ok := is.Body.List[len(is.Body.List)-1].(*ast.ReturnStmt); ok && guardedFrom < 0 {
+						guardedFrom = i
+					}
+				}
+			}
+			if id, ok := is.Cond.(*ast.Ident); ok && id.Name == flag {
+				continue // counter updates inside `if flag {…}` are fine
+			}
+		}
+		if len(callsNamed(st, counterOps...)) > 0 && !(guardedFrom >= 0 && i > guardedFrom) {
+			return false
+		}
+	}
+	total := 0
+	for _, st := range fd.Body.List {
+		total += len(callsNamed(st, counterOps...))
+	}
+	return total > 0
+}
+
 func moreSections(repo string) string {
 	tx := parsePkg(filepath.Join(repo, "txcache"))
 	su := parsePkg(filepath.Join(repo, "storageUnit"))
@@ -485,6 +563,11 @@ func moreSections(repo string) string {
 		val  bool
 	}{
 		{"addTxIndexUpdatesAtomic", "TxCache.AddTx updates the hash index and the sender list inside ONE mutTxOperation critical section", addTxIndexUpdatesAtomic(tx.funcs["TxCache.AddTx"])},
+		{"hashIndexCountersPaired", "txByHashMap.addTx / removeTx update CountTx and NumBytes iff the chunk-locked map operation (SetIfAbsent / Remove) reported a change, with no lookup before it",
+			countersPaired(tx.funcs["txByHashMap.addTx"], "SetIfAbsent", []string{"Increment", "Add"}, []string{"getTx", "Get", "Has"}) &&
+				countersPaired(tx.funcs["txByHashMap.removeTx"], "Remove", []string{"Decrement", "Subtract"}, []string{"getTx", "Get", "Has"})},
+		{"senderCounterPaired", "txListBySenderMap.removeSender decrements CountSenders iff the map's Remove reported a removal",
+			countersPaired(tx.funcs["txListBySenderMap.removeSender"], "Remove", []string{"Decrement"}, []string{"Get", "Has", "getListForSender"})},
 		{"unitGetSingleSection", "storageUnit.Unit.Get (cache lookup, persister read, cache refill) is ONE critical section of the unit lock", wholeBodyLocked(su.funcs["Unit.Get"])},
 		{"unitPutSingleSection", "storageUnit.Unit.Put (cache write, persister write, undo) is ONE critical section of the unit lock", wholeBodyLocked(su.funcs["Unit.Put"])},
 		{"unitRemoveSingleSection", "storageUnit.Unit.Remove is ONE critical section of the unit lock", wholeBodyLocked(su.funcs["Unit.Remove"])},
